@@ -261,14 +261,18 @@ def r3(ctx):
     MAT = ('field', Call('text::match_words', ('arg', 2, ANY), ('arg', 3, ANY), Const(0)), 0)
 
     def proj(comp):
+        """the set of component `comp` of the matched (prediction, target) pairs: map(|p| p.comp).collect() or unzip().comp"""
+        from analysis.seq import seq_of, seq_of_iter, ITEM
+        s_body = ctx.body(M + '_spelling_correction_tp_fp_fn')
+
         def f(t):
-            t = core(t)
-            mp = [x for x in walk(t) if isinstance(x, tuple) and x and x[0] == 'call' and x[1].endswith('Iterator::map')]
-            if len(mp) != 1 or not match(mp[0][2][0], MAT):
-                return False
-            clo = closure_of(ctx, mp[0][2][1])
-            crv = ret_values(clo)
-            return len(crv) == 1 and match(core(crv[0][0]), ('field', ('arg', 2, ANY), comp))
+            c = peel(t)
+            if c[0] == 'field' and c[2] == comp and peel(c[1])[0] == 'call' and peel(c[1])[1].endswith('unzip'):
+                segs = seq_of_iter(ctx.facts, s_body, peel(c[1])[2][0])
+                return segs is not None and len(segs) == 1 and segs[0].kind == 'each' and not segs[0].conds and match(core(segs[0].src), MAT) and core(segs[0].elem) == ITEM
+            segs = seq_of(ctx.facts, s_body, t)
+            return segs is not None and len(segs) == 1 and segs[0].kind == 'each' and not segs[0].conds and match(core(segs[0].src), MAT) and \
+                core(segs[0].elem) == ('field', ITEM, comp)
         return Pred(f)
     RESTORED, MPRED = proj(1), proj(0)
     CORRECT = Call(M + '_group_words', ('arg', 1, ANY), ('arg', 2, ANY), MPRED, ANY)
@@ -322,79 +326,80 @@ def _names_match(b, t, a, c):
       'micro averaging = _f1 of the summed counts; sequence averaging = mean over sequences of _f1 (or (1,1,1) for an empty '
       'sequence) divided by the clamped sequence count; accuracy / mean edit distance have the shape of their formulas')
 def r4(ctx):
+    from analysis.reduce import reduce_of
+    from analysis.alts import flatten
+    from analysis.seq import ITEM
+    VALUES = ('field', ('arg', 1, ANY), 'values')
+
+    def summed(body, tree, init_zero):
+        """reduce form `sum over self.values of elem` -> elem tree, else None"""
+        r = reduce_of(ctx.facts, body, tree)
+        if r is None or r.op != 'add' or r.init is None or len(r.segs) != 1 or r.segs[0].kind != 'each' or r.segs[0].conds:
+            return None
+        i0 = core(r.init)
+        if not (i0[0] == 'const' and i0[2] in (0, 0.0) or (i0[0] == 'const' and i0[1].replace('const ', '').startswith('0'))):
+            return None
+        if not match(core(r.segs[0].src), VALUES):
+            return None
+        return r.segs[0].elem
     m = ctx.body(M + 'TpFpFn::micro_f1')
     rv = ret_values(m)
     ok = len(rv) == 1 and rv[0][0][0] == 'agg'
     if ok:
-        f = core(init_value(m, rv[0][0][3][0]))
-        e = {}
-        ok = match(f, Call('metrics::_f1', ('field', Cap('fold'), 0), ('field', Cap('fold'), 1), ('field', Cap('fold'), 2), ('arg', 2, ANY)), e)
+        f = peel(init_value(m, rv[0][0][3][0]))
+        ok = f[0] == 'call' and f[1].endswith('metrics::_f1') and len(f[2]) == 4 and match(core(f[2][3]), ('arg', 2, ANY))
         if ok:
-            fd = e['fold']
-            ok = match(fd, Call('fold', Pred(lambda u: has(u, ('field', ('arg', 1, ANY), 'values'))), ('agg', 'tuple', '', (Const(0), Const(0), Const(0))), ANY))
-            if ok:
-                clo = closure_of(ctx, fd[2][2])
-                crv = ret_values(clo)
-                ok = len(crv) == 1 and match(core(crv[0][0]), ('agg', 'tuple', '', (
-                    ('bin', 'Add', ('field', ('arg', 2, ANY), 0), ('field', ('arg', 3, ANY), 1)),
-                    ('bin', 'Add', ('field', ('arg', 2, ANY), 1), ('field', ('arg', 3, ANY), 2)),
-                    ('bin', 'Add', ('field', ('arg', 2, ANY), 2), ('field', ('arg', 3, ANY), 3)))))
-    ctx.require(ok, m, 'micro', 'micro_f1 = _f1(sum tp, sum fp, sum fn, beta)', 'micro_f1 = %s' % [show_in(m, v) for v, _ in rv])
+            el = [summed(m, a_, 0) for a_ in f[2][:3]]
+            ok = all(e_ is not None and core(e_) == ('field', ITEM, i + 1) for i, e_ in enumerate(el))
+    ctx.require(ok, m, 'micro', 'micro_f1 = _f1(sum tp, sum fp, sum fn, beta) over all sequences', 'micro_f1 = %s' % [show_in(m, v) for v, _ in rv])
     s = ctx.body(M + 'TpFpFn::sequence_averaged_f1')
     rv = ret_values(s)
     ok = len(rv) == 1 and rv[0][0][0] == 'agg' and rv[0][0][3][0][0] == 'agg' and len(rv[0][0][3][0][3]) == 3
     if ok:
-        parts = [core(x) for x in rv[0][0][3][0][3]]
-        nums = {nosite(p_[3]) for p_ in parts if p_[0] == 'bin' and p_[1] == 'Div'}
+        parts = [peel(x) for x in rv[0][0][3][0][3]]
+        nums = {nosite(core(p_[3])) for p_ in parts if p_[0] == 'bin' and p_[1] == 'Div'}
         num = list(nums)
-        okn = len(num) == 1 and match(core(num[0]), Call('Ord::max', Call('Vec::len', ANY), Const(1)))
+        okn = len(num) == 1 and match(num[0], Call('Ord::max', Call('Vec::len', ANY), Const(1)))
         ctx.require(okn, s, 'seq-count', 'the divisor is the clamped number of sequences', 'divisors: %s' % [show_in(s, x) for x in num])
-        folds = set()
         for i, p in enumerate(parts):
-            okp = p[0] == 'bin' and p[1] == 'Div' and match(p[2], ('field', Call('fold', ANY, ANY, ANY), i)) and (len(num) == 1 and nosite(p[3]) == num[0])
-            ok = ok and okp
-            if okp:
-                folds.add(nosite(p[2][1]))
-        ok = ok and len(folds) == 1
-        if ok:
-            fd = list(folds)[0]
-            ok = match(fd[2][1], ('agg', 'tuple', '', (Pred(lambda t: t[0] == 'const' and t[1].replace('const ', '').startswith('0')),) * 3))
-            acc = closure_of(ctx, fd[2][2])
-            arv = ret_values(acc)
-            ok = ok and len(arv) == 1 and match(core(arv[0][0]), ('agg', 'tuple', '', tuple(('bin', 'Add', ('field', ('arg', 2, ANY), i), ('field', ('arg', 3, ANY), i)) for i in range(3))))
-            mp = fd[2][0]
-            ok = ok and match(mp, Call('Iterator::map', Pred(lambda u: has(u, ('field', ('arg', 1, ANY), 'values'))), ANY))
-            if ok:
-                per = closure_of(ctx, mp[2][1])
-                kinds = {}
-                for v, blk in ret_values(per):
-                    cv = core(v)
-                    flag = None
-                    for tt, pol, g in atoms_at(per, blk):
-                        if match(core(tt), ('field', ('arg', 2, ANY), 0)):
-                            flag = pol
-                    if match(cv, Call('metrics::_f1', ('field', ('arg', 2, ANY), 1), ('field', ('arg', 2, ANY), 2), ('field', ('arg', 2, ANY), 3), ANY)):
-                        kinds['f1'] = flag
-                    elif match(cv, ('agg', 'tuple', '', (Pred(lambda t: t[0] == 'const' and t[1].replace('const ', '').startswith('1')),) * 3)):
-                        kinds['one'] = flag
-                    else:
-                        kinds['other:' + show_in(per, cv)[:40]] = flag
-                ok = kinds == {'f1': False, 'one': True}
-                ctx.require(ok, per, 'per-sequence', 'per sequence: (1,1,1) if empty else _f1(tp, fp, fn, beta)', 'per-sequence values: %s' % kinds)
+            el = summed(s, p[2], 0.0) if p[0] == 'bin' and p[1] == 'Div' else None
+            if el is None:
+                ok = False
+                continue
+            kinds = {}
+            for a in flatten(el):
+                cv = core(a.value)
+                flag = None
+                for tt, pol in a.atoms:
+                    if core(tt) == ('field', ITEM, 0):
+                        flag = pol
+                if match(cv, ('field', Call('metrics::_f1', ('field', ITEM, 1), ('field', ITEM, 2), ('field', ITEM, 3), ('arg', 2, ANY)), i)):
+                    kinds['f1'] = flag
+                elif cv[0] == 'const' and cv[1].replace('const ', '').startswith('1'):
+                    kinds['one'] = flag
+                else:
+                    kinds['other:' + show_in(s, cv)[:40]] = flag
+            okk = kinds == {'f1': False, 'one': True}
+            ctx.require(okk, s, 'per-sequence|%d' % i, 'per sequence, component %d: 1 if empty else _f1(tp, fp, fn, beta).%d' % (i, i), 'per-sequence values: %s' % kinds)
+            ok = ok and okk
     ctx.require(ok, s, 'sequence-averaged', 'sequence_averaged_f1 = sum of per-sequence values / clamped count', None)
+    from analysis.alts import ret_alts
     cf = ctx.body(M + '_correction_f1')
     kinds = {}
-    for v, blk in ret_values(cf):
+    for a in ret_alts(ctx.facts, cf):
+        v = peel(a.value)
         if v[0] == 'agg' and v[2].endswith('Result::Ok'):
             cv = core(v[3][0])
             flag = None
-            for tt, pol, g in atoms_at(cf, blk):
+            for tt, pol in a.atoms:
                 if match(core(tt), ('arg', 5, ANY)):
                     flag = pol
             if match(cv, Call('TpFpFn::sequence_averaged_f1', ANY, ('arg', 4, ANY))):
                 kinds['seq'] = flag
             elif match(cv, Call('TpFpFn::micro_f1', ANY, ('arg', 4, ANY))):
                 kinds['micro'] = flag
+    if not kinds:
+        raise AnchorMissing('the Ok(..) results of _correction_f1 (neither micro_f1 nor sequence_averaged_f1 recognised)')
     ctx.require(kinds == {'seq': True, 'micro': False}, cf, 'mode-switch', 'sequence_averaged selects sequence_averaged_f1, otherwise micro_f1', 'modes: %s' % kinds)
     a = ctx.body(M + 'accuracy')
     oks = [v for v, blk in ret_values(a) if v[0] == 'agg' and v[2].endswith('Result::Ok')]
